@@ -236,7 +236,9 @@ impl C15 {
                 m.push(0x4141_4141, &[0x42; 3]);
                 (Region::new(ctx.placement, &m.finish()), 8usize)
             } else {
-                (Region::new(ctx.placement, &img), 0usize)
+                // sized targets: see Region::new_slack
+                let min = if t < 7 { round8(8 + 4 * t) } else if t >= 7 + 2 * NDST { crate::spec::sized_view_size(id).unwrap_or(0) } else { 0 };
+                (Region::new_slack(ctx.placement, &img, min), 0usize)
             };
             let r = catch(|| -> Option<(usize, usize)> {
                 if via_get {
